@@ -192,6 +192,28 @@ func checkC05(c *Ctx) {
 			if _, isIA := stripConv(src).(*ssa.UnOp); isIA && role == "component" {
 				role = "key"
 			}
+			if role == "component" {
+				// the result of a helper whose every return is a looked-up map value (or a constant)
+				n, lookedUp := 0, 0
+				if c.traceReturns(src, 2, func(v ssa.Value) bool {
+					n++
+					switch x := canon(v).(type) {
+					case *ssa.Const:
+						return true
+					case *ssa.Lookup:
+						lookedUp++
+						return true
+					case *ssa.Extract:
+						if _, isLk := x.Tuple.(*ssa.Lookup); isLk {
+							lookedUp++
+							return true
+						}
+					}
+					return false
+				}) && lookedUp > 0 && n > 1 {
+					role = "value"
+				}
+			}
 			// escaped: the appended value is the result of an escaping call
 			escaped := false
 			if ec, isCall := stripConv(src).(*ssa.Call); isCall {
